@@ -36,7 +36,13 @@ use vupd::{a, cname, empty, ns, soa, txt, with_class, Env, Handler, JournalRow, 
 struct MsgT {
     name: &'static str,
     build: fn(u32) -> Msg,
+    /// not an UPDATE: `persist_to_journal()` is called again on the running handler (a second
+    /// full dump, AXFR marker first, into the existing journal)
+    persist: bool,
 }
+
+/// Index of the re-persist event in the alphabet (used only by its own slice of histories).
+const RE_PERSIST: usize = 12;
 
 fn upd(us: Vec<Rr>) -> Msg {
     Msg { prereqs: vec![], updates: us }
@@ -44,21 +50,23 @@ fn upd(us: Vec<Rr>) -> Msg {
 
 fn alphabet() -> Vec<MsgT> {
     vec![
-        MsgT { name: "add b.z A1", build: |_| upd(vec![a("b.z.", 60, 1)]) },
-        MsgT { name: "add b.z A1,A2", build: |_| upd(vec![a("b.z.", 60, 1), a("b.z.", 60, 2)]) },
-        MsgT { name: "add a.z A2; a.z TXT; b.z A1", build: |_| upd(vec![a("a.z.", 60, 2), txt("a.z.", 60, "t"), a("b.z.", 60, 1)]) },
-        MsgT { name: "delete RR a.z A1", build: |_| upd(vec![with_class(a("a.z.", 0, 1), ru::CLASS_NONE)]) },
-        MsgT { name: "replace a.z A: delete RRset, add A2", build: |_| upd(vec![empty("a.z.", ru::T_A, ru::CLASS_ANY, 0), a("a.z.", 60, 2)]) },
-        MsgT { name: "delete name b.z", build: |_| upd(vec![empty("b.z.", ru::T_ANY, ru::CLASS_ANY, 0)]) },
+        MsgT { name: "add b.z A1", build: |_| upd(vec![a("b.z.", 60, 1)]), persist: false },
+        MsgT { name: "add b.z A1,A2", build: |_| upd(vec![a("b.z.", 60, 1), a("b.z.", 60, 2)]), persist: false },
+        MsgT { name: "add a.z A2; a.z TXT; b.z A1", build: |_| upd(vec![a("a.z.", 60, 2), txt("a.z.", 60, "t"), a("b.z.", 60, 1)]), persist: false },
+        MsgT { name: "delete RR a.z A1", build: |_| upd(vec![with_class(a("a.z.", 0, 1), ru::CLASS_NONE)]), persist: false },
+        MsgT { name: "replace a.z A: delete RRset, add A2", build: |_| upd(vec![empty("a.z.", ru::T_A, ru::CLASS_ANY, 0), a("a.z.", 60, 2)]), persist: false },
+        MsgT { name: "delete name b.z", build: |_| upd(vec![empty("b.z.", ru::T_ANY, ru::CLASS_ANY, 0)]), persist: false },
         MsgT {
             name: "rejected: prereq b.z in use, add b.z TXT",
             build: |_| Msg { prereqs: vec![empty("b.z.", ru::T_ANY, ru::CLASS_ANY, 0)], updates: vec![txt("b.z.", 60, "t")] },
+            persist: false,
         },
-        MsgT { name: "no-op: delete RRset a.a.z A", build: |_| upd(vec![empty("a.a.z.", ru::T_A, ru::CLASS_ANY, 0)]) },
-        MsgT { name: "replace SOA serial cur+10", build: |cur| upd(vec![soa("z.", 60, cur.wrapping_add(10), 2)]) },
-        MsgT { name: "add b.z CNAME a.z", build: |_| upd(vec![cname("b.z.", 60, "a.z.")]) },
-        MsgT { name: "move b.z A1 -> A2", build: |_| upd(vec![with_class(a("b.z.", 0, 1), ru::CLASS_NONE), a("b.z.", 60, 2)]) },
-        MsgT { name: "add z NS n2", build: |_| upd(vec![ns("z.", 60, "n2.o.")]) },
+        MsgT { name: "no-op: delete RRset a.a.z A", build: |_| upd(vec![empty("a.a.z.", ru::T_A, ru::CLASS_ANY, 0)]), persist: false },
+        MsgT { name: "replace SOA serial cur+10", build: |cur| upd(vec![soa("z.", 60, cur.wrapping_add(10), 2)]), persist: false },
+        MsgT { name: "add b.z CNAME a.z", build: |_| upd(vec![cname("b.z.", 60, "a.z.")]), persist: false },
+        MsgT { name: "move b.z A1 -> A2", build: |_| upd(vec![with_class(a("b.z.", 0, 1), ru::CLASS_NONE), a("b.z.", 60, 2)]), persist: false },
+        MsgT { name: "add z NS n2", build: |_| upd(vec![ns("z.", 60, "n2.o.")]), persist: false },
+        MsgT { name: "re-persist: dump the zone into the existing journal again", build: |_| upd(vec![]), persist: true },
     ]
 }
 
@@ -93,7 +101,7 @@ fn zone_alphabet(zone: usize, n: usize) -> Vec<usize> {
     if zone >= FIRST_SERIAL_ZONE {
         SERIAL_ZONE_ALPHABET.to_vec()
     } else {
-        (0..n).collect()
+        (0..n).filter(|i| *i != RE_PERSIST).collect()
     }
 }
 
@@ -103,6 +111,9 @@ fn zone_alphabet(zone: usize, n: usize) -> Vec<usize> {
 struct Store {
     path: PathBuf,
     ro: rusqlite::Connection,
+    /// a second writer: while it holds a write transaction the handler's next INSERT fails with
+    /// SQLITE_BUSY at once (journal write error fault)
+    rw: rusqlite::Connection,
 }
 
 impl Store {
@@ -111,13 +122,23 @@ impl Store {
         let _ = std::fs::remove_file(&path);
         drop(Journal::from_file(&path).expect("create journal file"));
         let ro = rusqlite::Connection::open_with_flags(&path, rusqlite::OpenFlags::SQLITE_OPEN_READ_ONLY).expect("read-only connection");
-        Store { path, ro }
+        let rw = rusqlite::Connection::open(&path).expect("second writer");
+        rw.busy_timeout(std::time::Duration::ZERO).expect("busy timeout");
+        Store { path, ro, rw }
+    }
+    fn block_writes(&self) {
+        self.rw.execute_batch("BEGIN IMMEDIATE").expect("take the write lock");
+    }
+    fn unblock_writes(&self) {
+        self.rw.execute_batch("ROLLBACK").expect("release the write lock");
     }
     /// A journal on this store's file holding exactly `rows` (a disk image after a stop).
     fn journal_with(&self, rows: &[JournalRow]) -> Journal {
         let j = Journal::from_file(&self.path).expect("open journal file");
         {
             let c = j.conn();
+            // a locked database is reported to the server at once instead of after 5 s of retries
+            c.busy_timeout(std::time::Duration::ZERO).expect("busy timeout");
             c.execute_batch("BEGIN; DELETE FROM records;").expect("clear");
             for r in rows {
                 c.execute("INSERT INTO records (client_id, soa_serial, timestamp, record) VALUES (?1,?2,?3,?4)", rusqlite::params![r.0, r.1, r.2, r.3])
@@ -143,6 +164,9 @@ struct ObsState {
     store: Rc<Store>,
     env: Option<Arc<Env>>,
     points: Vec<Point>,
+    /// the journal write at this point index (within the current message) fails
+    fail_at: Option<usize>,
+    blocked: bool,
 }
 
 thread_local! {
@@ -183,6 +207,10 @@ fn on_point(name: &'static str) {
         let durable = store.durable();
         let inflight_serial = env.and_then(|e| answered_serial(&e));
         if let Some(s) = o.borrow_mut().as_mut() {
+            if s.fail_at == Some(s.points.len()) && !s.blocked {
+                s.store.block_writes();
+                s.blocked = true;
+            }
             s.points.push(Point { durable, inflight_serial });
         }
     });
@@ -199,6 +227,8 @@ struct Ack {
     answered: Option<u32>,
     /// journal write points seen while this message (or the initial persist) was processed
     points: Vec<Point>,
+    /// the event was a re-persist (second dump), not an UPDATE
+    persist: bool,
 }
 
 struct Life {
@@ -228,7 +258,7 @@ impl Worker {
         hickory_proto::verif::set_point_callback(Some(on_point));
         let dir = tmp_root().join(format!("w{id}"));
         std::fs::create_dir_all(&dir).expect("tmp dir");
-        let stores = (0..4).map(|i| Rc::new(Store::open(&dir, &format!("life{i}.db")))).collect();
+        let stores = (0..6).map(|i| Rc::new(Store::open(&dir, &format!("life{i}.db")))).collect();
         Worker { rt: vsim::rt(), signer: vupd::signer1(), stores, cache: HashMap::new() }
     }
 }
@@ -243,10 +273,17 @@ fn same_state(x: &Snap, y: &Snap) -> bool {
 
 impl Life {
     fn observe<T>(store: &Rc<Store>, env: Option<Arc<Env>>, f: impl FnOnce() -> T) -> (T, Vec<Point>) {
-        OBS.with(|o| *o.borrow_mut() = Some(ObsState { store: store.clone(), env, points: vec![] }));
+        Life::observe_failing(store, env, None, f)
+    }
+
+    fn observe_failing<T>(store: &Rc<Store>, env: Option<Arc<Env>>, fail_at: Option<usize>, f: impl FnOnce() -> T) -> (T, Vec<Point>) {
+        OBS.with(|o| *o.borrow_mut() = Some(ObsState { store: store.clone(), env, points: vec![], fail_at, blocked: false }));
         let r = f();
-        let pts = OBS.with(|o| o.borrow_mut().take()).map(|s| s.points).unwrap_or_default();
-        (r, pts)
+        let st = OBS.with(|o| o.borrow_mut().take());
+        if st.as_ref().map(|s| s.blocked).unwrap_or(false) {
+            store.unblock_writes();
+        }
+        (r, st.map(|s| s.points).unwrap_or_default())
     }
 
     /// First life: the zone is loaded, a new journal is attached and the zone persisted into it.
@@ -260,7 +297,7 @@ impl Life {
         let env = Arc::new(Env::from_handler(h));
         let snap = w.rt.block_on(env.snapshot());
         let answered = answered_serial(&env);
-        Life { env, store: store.clone(), acks: vec![Ack { durable: store.durable(), rcode: None, snap, answered, points }], recovery: None }
+        Life { env, store: store.clone(), acks: vec![Ack { durable: store.durable(), rcode: None, snap, answered, points, persist: false }], recovery: None }
     }
 
     /// A later life: the journal file holds `rows`; the zone is recovered from it.
@@ -274,7 +311,7 @@ impl Life {
         let env = Arc::new(Env::from_handler(h));
         let snap = w.rt.block_on(env.snapshot());
         let answered = answered_serial(&env);
-        Ok(Life { env, store: store.clone(), acks: vec![Ack { durable: store.durable(), rcode: None, snap, answered, points: vec![] }], recovery })
+        Ok(Life { env, store: store.clone(), acks: vec![Ack { durable: store.durable(), rcode: None, snap, answered, points: vec![], persist: false }], recovery })
     }
 
     fn cur_serial(&self) -> u32 {
@@ -282,10 +319,31 @@ impl Life {
     }
 
     fn apply(&mut self, w: &Worker, t: &MsgT) -> Result<(), String> {
+        self.apply_failing(w, t, None)
+    }
+
+    /// As `apply`; with `fail_at = Some(p)` the p-th journal write of this message fails.
+    fn apply_failing(&mut self, w: &Worker, t: &MsgT, fail_at: Option<usize>) -> Result<(), String> {
+        if t.persist {
+            let env = self.env.clone();
+            let (res, points) = Life::observe_failing(&self.store, Some(env.clone()), fail_at, || catch(|| w.rt.block_on(env.h.persist_to_journal())));
+            match res {
+                Err(p) => return Err(format!("panic:{}", p.msg)),
+                Ok(r) => {
+                    if fail_at.is_none() {
+                        r.map_err(|e| e.to_string())?;
+                    }
+                }
+            }
+            let snap = w.rt.block_on(self.env.snapshot());
+            let answered = answered_serial(&self.env);
+            self.acks.push(Ack { durable: self.store.durable(), rcode: None, snap, answered, points, persist: true });
+            return Ok(());
+        }
         let msg = (t.build)(self.cur_serial());
         let bytes = vupd::signed_update(200 + self.acks.len() as u16, &msg, &w.signer, vupd::NOW);
         let env = self.env.clone();
-        let (res, points) = Life::observe(&self.store, Some(env.clone()), || catch(|| w.rt.block_on(env.exchange(&bytes))));
+        let (res, points) = Life::observe_failing(&self.store, Some(env.clone()), fail_at, || catch(|| w.rt.block_on(env.exchange(&bytes))));
         let rcode = match res {
             Err(p) => return Err(format!("panic:{}", p.msg)),
             Ok(Err(e)) => return Err(e),
@@ -293,7 +351,7 @@ impl Life {
         };
         let snap = w.rt.block_on(self.env.snapshot());
         let answered = answered_serial(&self.env);
-        self.acks.push(Ack { durable: self.store.durable(), rcode, snap, answered, points });
+        self.acks.push(Ack { durable: self.store.durable(), rcode, snap, answered, points, persist: false });
         Ok(())
     }
 
@@ -402,7 +460,13 @@ fn judge_recovery(life: &Life, k: usize, rec: &Result<Life, String>, earlier_ans
             l.outcome("recovery-refused-incomplete-initial-dump");
             return (out, None);
         }
-        out.push(Finding { key: format!("{prefix}recovery-failed:{scene}"), what: format!("recover_with_journal failed on the first {k} rows the server itself wrote: {e}") });
+        let in_re_dump = match pos {
+            Pos::Inside { m, .. } => life.acks[m].persist,
+            Pos::Boundary(j) => life.acks[j].persist,
+            _ => false,
+        };
+        let key = if in_re_dump { format!("{prefix}partial-re-dump:recovery-failed") } else { format!("{prefix}recovery-failed:{scene}") };
+        out.push(Finding { key, what: format!("recover_with_journal failed on the first {k} rows the server itself wrote: {e}") });
         return (out, None);
     }
     let mut boundary = None;
@@ -451,6 +515,16 @@ fn judge_recovery(life: &Life, k: usize, rec: &Result<Life, String>, earlier_ans
             } else if same_state(rs, after) {
                 boundary = Some(m);
                 l.outcome("in-flight-message-complete");
+            } else if life.acks[m].persist {
+                out.push(Finding {
+                    key: format!("{prefix}partial-re-dump:k-inside-dump"),
+                    what: format!(
+                        "stop with {offset} of {} rows of a second persist_to_journal() durable: the AXFR marker clears the zone on replay and only part of the dump follows: recovered {:?}; the zone is {:?}",
+                        life.acks[m].durable - life.acks[m - 1].durable,
+                        rs.text(),
+                        after.text()
+                    ),
+                });
             } else if rs.content() == after.content() && rs.serial() == before.serial() && after.content() != before.content() {
                 out.push(Finding {
                     key: format!("{prefix}content-new-serial-old"),
@@ -523,6 +597,8 @@ struct Plan<'a> {
     cont_len_long: usize,
     /// a second crash is enumerated after histories of at most this many messages
     second_crash_max_hist: Option<usize>,
+    /// a third lifetime (message + stop + third recovery) after histories of at most this length
+    third_life_max_hist: Option<usize>,
 }
 
 impl Plan<'_> {
@@ -532,6 +608,9 @@ impl Plan<'_> {
         } else {
             self.cont_len_long
         }
+    }
+    fn third_life(&self, hist_len: usize) -> bool {
+        self.third_life_max_hist.map(|m| hist_len <= m).unwrap_or(false)
     }
     fn second_crash(&self, hist_len: usize) -> bool {
         self.second_crash_max_hist.map(|m| hist_len <= m).unwrap_or(false)
@@ -728,16 +807,170 @@ fn run_history(w: &mut Worker, plan: &Plan, zone: usize, hist: &[usize], only: O
                 l.eval();
                 let store3 = w.stores[2].clone();
                 let rec2 = Life::recovered(w, &store3, &rows2[..k2]);
-                let (f2, _) = judge_recovery(&life2, k2, &rec2, &answers_life1, "second-crash:", l);
+                let (f2, b2) = judge_recovery(&life2, k2, &rec2, &answers_life1, "second-crash:", l);
                 l.outcome("second-crash-recovery");
                 l.nontrivial(vupd::digest(&(zone, hist, k, cont, k2)));
                 for f in &f2 {
                     l.violation(&f.key, &f.what, || case_json(plan, zone, hist, Some(k), cont, Some(k2)));
                 }
+                // third lifetime: one more message on the twice-recovered handler, compared with
+                // the never-crashed handler, and every stop inside it recovered a third time
+                let Some(j2) = b2 else { continue };
+                if !f2.is_empty() || !plan.third_life(hist.len()) || only.is_some() {
+                    continue;
+                }
+                drop(rec2);
+                let answers_life2: Vec<u32> = answers_life1.iter().cloned().chain(answered_before(&life2, k2, &[]).into_iter().map(|x| x.0)).collect();
+                let mut eff: Vec<usize> = hist[..j].to_vec();
+                eff.extend(cont[..j2].iter().cloned());
+                for c3 in &za {
+                    let mut full = eff.clone();
+                    full.push(*c3);
+                    let want = crash_free(w, plan, zone, &full);
+                    let Ok(mut life3) = Life::recovered(w, &store3, &rows2[..k2]) else { continue };
+                    l.eval();
+                    if life3.apply(w, &plan.alpha[*c3]).is_err() {
+                        l.violation("third-life:continuation-failed", "a message on the twice-recovered handler failed", || case_json(plan, zone, hist, Some(k), cont, Some(k2)));
+                        continue;
+                    }
+                    let a3 = life3.acks.last().unwrap();
+                    match want.last() {
+                        Some(wv) if *wv == (a3.rcode, cs_digest(&a3.snap)) => l.outcome("third-life-step-agrees"),
+                        _ => {
+                            l.violation(
+                                "third-life:continuation-diverges",
+                                &format!("after two stops and recoveries message '{}' gives rcode {:?} / state {:?}; the never-crashed handler reacts differently", plan.alpha[*c3].name, a3.rcode.map(ru::rcode_name), a3.snap.text()),
+                                || case_json(plan, zone, hist, Some(k), cont, Some(k2)),
+                            );
+                            continue;
+                        }
+                    }
+                    let rows3 = life3.rows(w);
+                    for k3 in life3.crash_points() {
+                        if k3 <= k2 {
+                            continue;
+                        }
+                        l.eval();
+                        let store4 = w.stores[4].clone();
+                        let rec3 = Life::recovered(w, &store4, &rows3[..k3]);
+                        let (f3, _) = judge_recovery(&life3, k3, &rec3, &answers_life2, "third-crash:", l);
+                        l.outcome("third-crash-recovery");
+                        l.nontrivial(vupd::digest(&(zone, hist, k, cont, k2, c3, k3)));
+                        for f in &f3 {
+                            l.violation(&f.key, &f.what, || {
+                                let mut j = case_json(plan, zone, hist, Some(k), cont, Some(k2));
+                                j["third_life_message"] = json!(plan.alpha[*c3].name);
+                                j["k3"] = json!(k3);
+                                j
+                            });
+                        }
+                    }
+                }
             }
         }
     }
     dig.0
+}
+
+/// Journal WRITE-ERROR faults: the p-th journal write of the LAST message of `hist` fails (the
+/// database is locked by another writer at that moment), the server goes on running, and then the
+/// process stops at every point from there on. The live (never restarted) handler that saw the
+/// failure is the reference: the recovered zone must be one of its boundary states, and a further
+/// message must behave the same on both.
+fn run_write_failures(w: &mut Worker, plan: &Plan, zone: usize, hist: &[usize], l: &mut Local) {
+    let Some((last, head)) = hist.split_last() else { return };
+    let za = zone_alphabet(zone, plan.alpha.len());
+    // the crash-free run tells how many journal writes the last message makes
+    let (n_points, changed) = {
+        let store = w.stores[0].clone();
+        let mut life = Life::fresh(w, &store, &plan.zones[zone].1);
+        for i in hist {
+            if life.apply(w, &plan.alpha[*i]).is_err() {
+                return;
+            }
+        }
+        let m = life.acks.len() - 1;
+        (life.acks[m].points.len(), !same_state(&life.acks[m].snap, &life.acks[m - 1].snap))
+    };
+    let build = |w: &mut Worker, store_i: usize, p: usize| -> Option<Life> {
+        let store = w.stores[store_i].clone();
+        let mut life = Life::fresh(w, &store, &plan.zones[zone].1);
+        for i in head {
+            life.apply(w, &plan.alpha[*i]).ok()?;
+        }
+        life.apply_failing(w, &plan.alpha[*last], Some(p)).ok()?;
+        Some(life)
+    };
+    for p in 0..n_points {
+        let row_class = if plan.alpha[*last].persist {
+            "re-dump-row"
+        } else if changed && p + 1 == n_points {
+            "soa-row"
+        } else if p == 0 {
+            "first-update-row"
+        } else {
+            "later-update-row"
+        };
+        let prefix = format!("after-write-failure({row_class}):");
+        let Some(life) = build(w, 0, p) else {
+            l.violation(&format!("{prefix}server-failed"), "the server panicked or did not answer when a journal write failed", || {
+                let mut j = case_json(plan, zone, hist, None, &[], None);
+                j["failing_journal_write_of_last_message"] = json!(p);
+                j
+            });
+            continue;
+        };
+        let m = life.acks.len() - 1;
+        let rows = life.rows(w);
+        l.outcome(&format!("write-failure:{row_class}:answered-{}", life.acks[m].rcode.map(ru::rcode_name).unwrap_or("-")));
+        let wit = |k: Option<usize>, cont: &[usize]| {
+            let mut j = case_json(plan, zone, hist, k, cont, None);
+            j["failing_journal_write_of_last_message"] = json!(p);
+            j
+        };
+        if rows.len() != life.acks[m].durable {
+            l.violation(&format!("{prefix}journal-rows-not-durable"), "rows written but not durable after the failed message", || wit(None, &[]));
+            continue;
+        }
+        // the stop comes any time after the server answered the failed message (stops inside the
+        // message are the plain crash model, covered by the main family)
+        for k in [life.acks[m].durable] {
+            l.eval();
+            let store2 = w.stores[1].clone();
+            let rec = Life::recovered(w, &store2, &rows[..k]);
+            let (findings, boundary) = judge_recovery(&life, k, &rec, &[], &prefix, l);
+            l.outcome("write-failure:stop-recovered");
+            l.nontrivial(vupd::digest(&(zone, hist, p, k)));
+            for f in &findings {
+                l.violation(&f.key, &f.what, || wit(Some(k), &[]));
+            }
+            drop(rec);
+            if boundary != Some(m) || !findings.is_empty() {
+                continue;
+            }
+            // one more message: recovered handler vs. the live handler that saw the failure
+            for c in &za {
+                let Some(mut live) = build(w, 2, p) else { continue };
+                let Ok(mut life2) = Life::recovered(w, &store2, &rows[..k]) else { continue };
+                l.eval();
+                let (ra, rb) = (live.apply(w, &plan.alpha[*c]), life2.apply(w, &plan.alpha[*c]));
+                if ra.is_err() || rb.is_err() {
+                    l.violation(&format!("{prefix}continuation-failed"), "a message after the write failure failed", || wit(Some(k), &[*c]));
+                    continue;
+                }
+                let (x, y) = (live.acks.last().unwrap(), life2.acks.last().unwrap());
+                if x.rcode == y.rcode && same_state(&x.snap, &y.snap) {
+                    l.outcome("write-failure:continuation-step-agrees");
+                } else {
+                    l.violation(
+                        &format!("{prefix}continuation-diverges"),
+                        &format!("message '{}' after the failed write: live handler rcode {:?} state {:?}; recovered handler rcode {:?} state {:?}", plan.alpha[*c].name, x.rcode.map(ru::rcode_name), x.snap.text(), y.rcode.map(ru::rcode_name), y.snap.text()),
+                        || wit(Some(k), &[*c]),
+                    );
+                }
+            }
+        }
+    }
 }
 
 fn main() {
@@ -757,6 +990,7 @@ fn main() {
         cont_len_short: if thorough { 2 } else { 1 },
         cont_len_long: 1,
         second_crash_max_hist: Some(if thorough { 3 } else { 2 }),
+        third_life_max_hist: Some(if thorough { 1 } else { 0 }),
     };
     let _ = std::fs::remove_dir_all(tmp_root());
 
@@ -777,10 +1011,23 @@ fn main() {
             cont_len_short: cont.len(),
             cont_len_long: cont.len(),
             second_crash_max_hist: if only.k2.is_some() { Some(usize::MAX) } else { None },
+            third_life_max_hist: None,
         };
-        ctx.with_local(|l| {
-            run_history(&mut w, &rp, case["zone"].as_u64().unwrap_or(0) as usize, &hist, Some(&only), l);
-        });
+        let zone_i = case["zone"].as_u64().unwrap_or(0) as usize;
+        if case["failing_journal_write_of_last_message"].is_u64() {
+            // the whole write-failure family of that history
+            ctx.with_local(|l| run_write_failures(&mut w, &rp, zone_i, &hist, l));
+        } else if case["k3"].is_u64() {
+            // the whole three-lifetime family of that history
+            let rp3 = Plan { third_life_max_hist: Some(usize::MAX), second_crash_max_hist: Some(usize::MAX), ..rp };
+            ctx.with_local(|l| {
+                run_history(&mut w, &rp3, zone_i, &hist, None, l);
+            });
+        } else {
+            ctx.with_local(|l| {
+                run_history(&mut w, &rp, zone_i, &hist, Some(&only), l);
+            });
+        }
         drop(w);
         let _ = std::fs::remove_dir_all(tmp_root());
         ctx.finish(false);
@@ -802,6 +1049,23 @@ fn main() {
         hists_total += hs.len();
         cases.extend(hs.into_iter().map(|h| (h, zone)));
     }
+    // re-persist slice: histories over {add b.z A1, replace a.z A, re-persist} that contain a
+    // second persist_to_journal() (3-RR zone)
+    let rp_alpha = [0usize, 4, RE_PERSIST];
+    let rp_hists: Vec<Vec<usize>> = seqs(rp_alpha.len(), if thorough { 3 } else { 2 })
+        .into_iter()
+        .map(|s| s.into_iter().map(|i| rp_alpha[i]).collect::<Vec<usize>>())
+        .filter(|h| h.contains(&RE_PERSIST))
+        .collect();
+    ctx.set("re_persist_histories", json!(rp_hists.len()));
+    hists_total += rp_hists.len();
+    cases.extend(rp_hists.into_iter().map(|h| (h, 0)));
+    // journal write-error faults: every journal write of the last message of every history over a
+    // 6-event sub-alphabet fails (3-RR zone)
+    let wf_alpha = [0usize, 2, 4, 8, 10, RE_PERSIST];
+    let wf_hists: Vec<Vec<usize>> = seqs(wf_alpha.len(), if thorough { 3 } else { 2 }).into_iter().map(|s| s.into_iter().map(|i| wf_alpha[i]).collect()).collect();
+    ctx.set("write_failure_histories", json!(wf_hists.len()));
+    let n_hist_cases = cases.len();
     let nz = cases.iter().map(|c| c.1).collect::<std::collections::BTreeSet<_>>().len();
     ctx.set("histories", json!(hists_total));
     ctx.set("history_x_start_zone_cases", json!(cases.len()));
@@ -824,19 +1088,28 @@ fn main() {
          and (after histories of <= 2 quick / <= 3 thorough messages) every stop inside the continuation is recovered again (second crash). \
          Oracle: recovery Ok; recovered zone = state before or after the in-flight message of the crash-free run (content + serial); recovered \
          serial not below any serial answered before the stop (SOA query after every message and in-flight at every journal write point); \
-         continuation: same rcode and same state as never crashed. Non-trivial = distinct (history, k) with k inside a message's row group or \
+         continuation: same rcode and same state as never crashed. Further families: (a) histories that contain a second persist_to_journal() on \
+         the running handler (re-dump into the existing journal); (b) journal WRITE-ERROR faults: for every history over a 6-event sub-alphabet \
+         (<= 2 quick / <= 3 thorough) EVERY journal write of the last event fails in turn (database locked by another writer at that moment), the \
+         server goes on, and the process then stops at every later point: the recovered zone must be a boundary state of the LIVE handler that saw \
+         the failure and one further message must behave the same on both; (c) thorough: a THIRD lifetime (message on the twice-recovered \
+         handler compared with never crashed, every stop inside it recovered a third time) after histories of <= 1 message. Non-trivial = distinct (history, k) with k inside a message's row group or \
          after >= 1 acknowledged content-changing update (and every second-crash case).",
     );
     ctx.assume("SQLite's atomic commit: a stop leaves exactly the rows a second connection can see at that moment (a prefix of the row sequence)");
     ctx.assume("the crash-free run of the same implementation is the reference for boundary states and continuations (C12 judges them against RFC 2136)");
     ctx.assume("queries do not change state, so one SOA query after every message (and in-flight at every journal write point) dominates every interleaving of queries");
 
-    let total = cases.len() as u64;
+    let total = (cases.len() + wf_hists.len()) as u64;
     ctx.par_run_init(
         total,
         1,
         |wid| Worker::new(wid),
         |i, l, w| {
+            if i as usize >= n_hist_cases {
+                run_write_failures(w, &plan, 0, &wf_hists[i as usize - n_hist_cases], l);
+                return;
+            }
             let (hist, zone) = &cases[i as usize];
             let zone = *zone;
             let d1 = run_history(w, &plan, zone, hist, None, l);
@@ -856,7 +1129,7 @@ fn main() {
     );
     let _ = std::fs::remove_dir_all(tmp_root());
 
-    for class in ["stop:inside-initial-dump", "stop:at-message-boundary", "stop:inside-message-row-group", "continuation-step-agrees"] {
+    for class in ["stop:inside-initial-dump", "stop:at-message-boundary", "stop:inside-message-row-group", "continuation-step-agrees", "write-failure:stop-recovered", "write-failure:continuation-step-agrees"] {
         if ctx.outcome_count(class) == 0 {
             ctx.machinery_failure(&format!("vacuous run: outcome class {class} never exercised"));
         }
